@@ -25,6 +25,7 @@ mod c06;
 mod c16;
 mod c19;
 mod c17;
+mod c20;
 
 fn main() {
     util::quiet_panics();
@@ -59,6 +60,9 @@ fn main() {
         ["c14", "noncodes", n, path] => c14::noncodes(n.parse().unwrap(), path),
         ["c06", "record", runs, path] => c06::record(runs.parse().unwrap(), path),
         ["c16", "replay", path] => c16::replay(path),
+        ["c20", "deepgen", shape, n, path] => c20::deepgen(shape, n.parse().unwrap(), path),
+        ["c20", "deepdec", path, place] => c20::deepdec(path, *place == "thread"),
+        ["c20", "record", rounds, threads, ops, path] => c20::record(rounds.parse().unwrap(), threads.parse().unwrap(), ops.parse().unwrap(), path),
         ["c15", "record", runs, path] => c15::record(runs.parse().unwrap(), path),
         ["c15", "replay", cases, path] => c15::replay(cases, path),
         ["c15", "atoms", path] => c15::atoms(path),
